@@ -510,6 +510,41 @@ def refused_upload_then_valid_put(res, count):
             res["violations"].append(("tree-wrong-after-refused-upload", "after the session the tree does not hold exactly the valid Put's file", rep))
 
 
+def dense_frame_sessions(res, count):
+    """C12 "never reserves more than the frame bound for a control frame": a 1 MiB frame whose body is VALID CBOR made of a million
+    one-byte items (an array of zeros) — not a request, so the session ends with an error — handled under a memory limit that a
+    same-sized frame holding one long text item fits into. What the server does with a frame it rejects must not cost a multiple of
+    the frame (seed C12-O: the rejected body decoded once more into a generic `ciborium::Value` tree for the error message: 32 bytes
+    per item, 32 MiB for this frame — `memory allocation failed`, SIGABRT)."""
+    n = (1 << 20) - 5
+    dense = bytes([0x9A]) + struct.pack(">I", n) + bytes(n)                      # array(n) of unsigned 0
+    text = bytes([0x7A]) + struct.pack(">I", n) + b"a" * n                       # one text string of n bytes
+    assert len(dense) == len(text) == 1 << 20
+    def session(body, limit_kib):
+        with Sandbox("C12") as sb:
+            root = sb.path("hub"); sb.write_tree(root, {"f": b"payload of f"}); os.makedirs(os.path.join(root, ".copia"), exist_ok=True)
+            stream = MAGIC + frame(req_hello()) + struct.pack(">I", len(body)) + body + frame(req_get("f")) + frame(req_bye())
+            sb.env["MALLOC_ARENA_MAX"] = "1"
+            rc, out, err = run_server(sb, root, stream, mem_limit_kb=limit_kib, timeout=60)
+            return rc, parse_replies(out), err
+    limit = None
+    for mib in (24, 40, 56, 72, 88, 104, 128, 160, 192):
+        rc, toks, err = session(text, mib * 1024)
+        if rc in (0, 1) and toks[:1] == ["hello:1"]:
+            limit = mib
+            break
+    if limit is None:
+        count("stream/dense-frame-skipped-no-limit-found")
+        return
+    rc, toks, err = session(dense, limit * 1024)
+    count("stream/dense-cbor-frame-under-memory-limit")
+    rep = {"kind": "dense-cbor-frame", "frame_bytes": 1 << 20, "items": n, "memory_limit_MiB": limit, "rc": rc, "stderr": err[-300:], "replies": toks[:3],
+           "control": "a text frame of the same size is refused cleanly under the same limit"}
+    if rc not in (0, 1):
+        res["violations"].append(("server-killed-by-signal" if rc != "timeout" else "server-timeout",
+                                  f"a 1 MiB frame of {n} one-byte CBOR items under a {limit} MiB address-space limit (enough for a text frame of the same size): copia serve ended with {rc}", rep))
+
+
 def long_name_sessions(rng, res, count):
     """C12 "always ends, stays in step": a Put that LOSES its CAS on a path whose last component is so long that the staging name
     still fits NAME_MAX while the conflict-copy name (`.conflict-` + 12 hex, then `-1`, `-2`, …) does not — every candidate name
@@ -553,6 +588,7 @@ def run_c12(pid, tier, seed, rundir, model_run, res, count):
     fs_failure_sessions(rng, res, count)
     long_name_sessions(rng, res, count)
     refused_upload_then_valid_put(res, count)
+    dense_frame_sessions(res, count)
     n = 160 * (12 if tier == "thorough" else 1)
     dec = ReqDecoder()
     ops, impl, reps = [], [], []
